@@ -80,7 +80,7 @@ func loadFailure(verif, prop, tier, evidence string, err error) {
 }
 
 func runCheck(P *Prog, opt CheckOpts) int {
-	start := time.Now()
+	start := processStart
 	prop := opt.Prop
 	var known KnownFile
 	loadJSON(filepath.Join(P.VerifDir, "known_findings.json"), &known)
@@ -348,6 +348,8 @@ func runCheck(P *Prog, opt CheckOpts) int {
 	}
 	return exit
 }
+
+var processStart = time.Now()
 
 var assumptionsBase = []string{
 	"A1: go/types + go/ssa (x/tools v0.29.0) represent the program the gc compiler builds",
